@@ -108,6 +108,10 @@ func genCompactCase(r *rand.Rand) SDCase {
 					tags["racing-writer-in-lock"] = true
 				}
 			}
+			if len(op.Ents) == 0 && r.Intn(3) == 0 {
+				op.To = []string{"underreader-lo", "underreader-full"}[r.Intn(2)]
+				tags["page-open-across-compaction"] = true
+			}
 			c.Ops = append(c.Ops, op)
 			tags["compact"] = true
 		case k < 97 && i%3 == 0:
@@ -548,7 +552,49 @@ func (s *sdRun) compactAndCheck(op SDOp) (int, error) {
 			}
 		}
 	}
-	stats, err := worker.VerifCompactSync(op.DS, op.Reader)
+	var stats map[string]int
+	var err error
+	if len(op.Ents) == 0 && strings.HasPrefix(op.To, "underreader") {
+		// a consumer is in the middle of a page of the change feed (one storage snapshot) while the compaction runs
+		// to completion: the page is the one the snapshot before the compaction answers
+		lo := op.To == "underreader-lo"
+		ran := false
+		// ... after the k-th entry of the page (k from the case, any position of the change log)
+		target, seenEntries := 1, 0
+		if n := len(before.feed[op.DS]); n > 0 {
+			target = 1 + (n*7+op.Reader+len(s.c.Ops)+int(s.ctx.Seed%1000))%n
+		}
+		vh.OnPoint("ds.changes.afterEntry", 0, func(string, int64) {
+			seenEntries++
+			if !ran && seenEntries == target {
+				ran = true
+				stats, err = worker.VerifCompactSync(op.DS, op.Reader)
+			}
+		})
+		page, _, perr := obs.Feed(s.core.Store, s.core.Dsm.GetDataset(op.DS), 0, nil, lo)
+		vh.Clear("ds.changes.afterEntry")
+		switch {
+		case !ran:
+			stats, err = worker.VerifCompactSync(op.DS, op.Reader)
+			s.ctx.Out.Stat("c12_compactions_after_a_page_without_entries", 1)
+		case perr != nil:
+			s.viol("C12", "page-under-compaction-error", perr.Error(), nil, nil)
+		case lo:
+			got := recStr(page)
+			sort.Strings(got)
+			if !reflect.DeepEqual(got, before.feedLO[op.DS]) {
+				s.viol("C12", "page-under-compaction", fmt.Sprintf("a latest-only page of %s that was open while the compaction (flush=%d) ran differs from the page before the compaction", op.DS, op.Reader), before.feedLO[op.DS], got)
+			}
+			s.ctx.Out.Stat("c12_latest_only_pages_open_across_a_compaction", 1)
+		default:
+			if got, want := recStr(page), recStr(before.feed[op.DS]); !reflect.DeepEqual(got, want) {
+				s.viol("C12", "page-under-compaction", fmt.Sprintf("a page of the change feed of %s that was open while the compaction (flush=%d) ran differs from the page before the compaction", op.DS, op.Reader), want, got)
+			}
+			s.ctx.Out.Stat("c12_full_pages_open_across_a_compaction", 1)
+		}
+	} else {
+		stats, err = worker.VerifCompactSync(op.DS, op.Reader)
+	}
 	if waitWriter != nil {
 		waitWriter()
 		if s.abort {
